@@ -267,7 +267,8 @@ def _rename_table(fn):
     if oe != ["labels[j] = lab.lower()", "new_labels[j] = lab.lower()"]:
         raise ExtractError("%s: the default renaming is not lab.lower()" % fn.name)
     src = ast.unparse(fn)
-    want = ("[j for j, lab in enumerate(labels) if generator.is_float(lab) and (not parents[j].lower() == '%s') or "
+    # the root has no parent (`parents[0] is None`): a root number IS replaced
+    want = ("[j for j, lab in enumerate(labels) if generator.is_float(lab) and (not (parents[j] is not None and parents[j].lower() == '%s')) or "
             "(lab.startswith('a') and generator.is_float(lab[1:]))]")
     par = None
     for n in ast.walk(fn):
